@@ -1,3 +1,6 @@
+mod c06;
+mod c10;
+mod c20;
 mod common;
 mod e2;
 mod e4;
@@ -16,7 +19,7 @@ fn usage() -> ! {
 
 fn check(prop: &str, tier: &str) -> i32 {
     match prop {
-        "C01" | "C05" | "C07" | "C08" | "C09" => {
+        "C01" | "C05" | "C07" | "C08" | "C09" | "C20" => {
             let mut r = Report::new(prop, tier, "model_checking");
             r.assumptions = vec![
                 "fjall/lsm-tree, cacache, tokio and scru128 are explored through, not modelled".into(),
@@ -43,6 +46,30 @@ fn check(prop: &str, tier: &str) -> i32 {
                 "bounded: request alphabet and sequence length as reported in coverage; any 2xx counts as success".into(),
             ];
             e4::run_c13(tier, &mut r);
+            r.finish()
+        }
+        "C06" => {
+            let mut r = Report::new(prop, tier, "model_checking");
+            r.assumptions = vec![
+                "E1/E2/E4 trusted bases apply (fjall, tokio, hyper explored through)".into(),
+                "script-level paths (.cat/.head inside handlers and commands, handler dispatch and output) are decided by the E5 part".into(),
+            ];
+            let mut r1 = Report::new(prop, tier, "model_checking");
+            seq::run(prop, tier, &mut r1);
+            let mut r2 = Report::new(prop, tier, "model_checking");
+            e2::run(prop, tier, &mut r2);
+            let mut r3 = Report::new(prop, tier, "model_checking");
+            e4::run_c06_http(&mut r3);
+            common::merge_reports(&mut r, vec![("E1-seq", r1), ("E2-sched", r2), ("E4-http", r3)]);
+            r.finish()
+        }
+        "C10" => {
+            let mut r = Report::new(prop, tier, "model_checking");
+            r.assumptions = vec![
+                "cacache's own integrity checks are trusted; content durability against power loss is not claimed".into(),
+                "a write that reports failure makes no claim (size-hinted cas_insert of empty content fails on Linux)".into(),
+            ];
+            c10::run(tier, &mut r);
             r.finish()
         }
         "C12" => {
@@ -84,6 +111,7 @@ fn main() {
                 "e2" => e2::worker(&args[3]),
                 "e4" => e4::worker(),
                 "e6" => e6::worker(),
+                "c06" => c06::worker(),
                 _ => usage(),
             }
             0
@@ -100,6 +128,19 @@ fn main() {
                 "e2" => e2::replay(rp),
                 "e4" => e4::replay(rp),
                 "e6" => e6::replay(rp),
+                "c10" => {
+                    let mut r = Report::new("C10", "quick", "model_checking");
+                    c10::run("quick", &mut r);
+                    if r.violations.is_empty() { 0 } else { 1 }
+                }
+                "c06" => {
+                    let (fs, o) = c06::run_case_json(&rp["case"]);
+                    println!("outcome {}", o);
+                    for f in &fs {
+                        println!("finding {}: {}", f.kind, f.msg);
+                    }
+                    if fs.is_empty() { 0 } else { 1 }
+                }
                 other => {
                     eprintln!("unknown replay engine {:?}", other);
                     2
